@@ -12,6 +12,9 @@ def run(ctx):
     if impl:
         cases = L.gen(ctx, PROGS, 400 if ctx.quick() else 5000, 'C05')
         corr_schedules(ctx, 'Lfht.v vs src/rculfhash.c', impl, model, cases, L.canon_c, oracle=L.oracle, nontrivial=L.contended, tail='012345' * 200, scenario='scen_lfht')
+        # plain stores (node->next before the insertion / replacement cmpxchg, reverse_hash) as scheduling points and buffered stores: oracle only
+        pimpl = build_scenario(ctx, 'scen_lfht_plain', 'scen_lfht.c', extra_src=[REPO + s for s in L.LFHT_SRCS], plain=True)
+        if pimpl: corr_schedules(ctx, 'rculfhash with instrumented plain stores', pimpl, None, cases[::3 if ctx.quick() else 2], L.canon_c, oracle=L.oracle, nontrivial=L.contended, tail='012345' * 200, scenario='scen_lfht_plain (oracle only)')
     ximpl = X.build(ctx)
     if ximpl: X.run_cases(ctx, 'rculfhash all operations with concurrent resize', ximpl, X.gen(ctx, XPROGS, 300 if ctx.quick() else 4000, 'C05x', XCONFS))
     return finish(ctx, trusted=L.TRUSTED + ['oracle-only scenario scen_lfhtx.c: add / add_unique / add_replace / replace / del / lookup / next_duplicate / traversal with explicit grow and shrink (abstract RCU flavor, quarantining allocator)'], rule='corpus + parking sweeps (each thread frozen after k steps) + bursty schedules on colliding keys (hash 5 x4, 7, 4) in a 2-bucket table; '
